@@ -101,6 +101,22 @@ def state_writes(mod: Module) -> List[Write]:
                     add(n, key if key in STATE_ATTRS else "<field>", ftxt, ast.unparse(n.args[0]) + "." + (key or ast.unparse(n.args[1])))
             elif isinstance(f, ast.Attribute) and f.attr in MUTATORS and isinstance(f.value, ast.Attribute) and f.value.attr in STATE_ATTRS:
                 add(n, f.value.attr, "item", ast.unparse(f))
+            elif isinstance(f, ast.Attribute) and f.attr in ("update", "setdefault", "__setitem__") and isinstance(f.value, ast.Attribute) and f.value.attr == "__dict__":
+                # X.__dict__.update(k=v, ...) / .update({"k": v}) / .setdefault("k", v) / .__setitem__("k", v): raw stores like X.__dict__["k"] = v
+                keys: List[Optional[str]] = [k.arg for k in n.keywords]
+                if f.attr == "update":
+                    for a in n.args:
+                        if isinstance(a, ast.Dict):
+                            keys += [_const_str(k) if k is not None else None for k in a.keys]
+                        else:
+                            keys.append(None)
+                elif n.args:
+                    keys.append(_const_str(n.args[0]))
+                for key in keys:
+                    if key in STATE_ATTRS:
+                        add(n, key, "dict", f"{ast.unparse(f.value)}[{key!r}]")
+                    elif key is None or not key.startswith("__"):
+                        add(n, "<field>", "dict", f"{ast.unparse(f.value)}[{key!r}]")
     return out
 
 
